@@ -61,7 +61,8 @@ static void after(void *fn, const char *cls)
                 feat(mix64((uint64_t) (uintptr_t) fn, mix64(0x5ec, (uint64_t) cls[0] * 131 + (uint64_t) strlen(cls) + (uint64_t) cls[strlen(cls) - 1] * 7)));
         }
 }
-#define T(fn, is32, cls, ...) ({ uint64_t a_[] = { __VA_ARGS__ }; LABEL("%s (%s)", fname((void *) (fn)), scen); uint64_t r_ = tramp_invoke((void *) (fn), (int) (sizeof a_ / 8), a_, is32, &H); cur_label[0] = 0; after((void *) (fn), cls); r_; })
+static rng_t shift_rng;
+#define T(fn, is32, cls, ...) ({ uint64_t a_[] = { __VA_ARGS__ }; tramp_stack_shift = mode == M_HIDDEN ? 0 : rng_below(&shift_rng, 8); LABEL("%s (%s)", fname((void *) (fn)), scen); uint64_t r_ = tramp_invoke((void *) (fn), (int) (sizeof a_ / 8), a_, is32, &H); cur_label[0] = 0; after((void *) (fn), cls); r_; })
 #define U(x) ((uint64_t) (uintptr_t) (x))
 
 static void add_needle(const void *blk, const char *name)
@@ -419,6 +420,17 @@ static void scen_rolling(int si, int route, rng_t *r)
 }
 
 /* ------------------------------------------------------------------ misc */
+#ifdef VERIF_FIPS
+#include <pthread.h>
+#include <unistd.h>
+extern void asm_set_self_tests_status(int);
+static void *publish_later(void *p)
+{
+        usleep(300);
+        asm_set_self_tests_status(*(volatile int *) p);
+        return NULL;
+}
+#endif
 static void scen_misc(rng_t *r)
 {
         snprintf(scen, sizeof scen, "misc");
@@ -438,6 +450,18 @@ static void scen_misc(rng_t *r)
         O64((uint32_t) T(isal_self_tests, 0, "isal_self_tests done"));
         T(asm_set_self_tests_status, 0, "set", 1);
         O64((uint32_t) T(asm_check_self_tests_status, 0, "check failed"));
+        /* the waiting path: the status says RUNNING, another thread publishes the verdict a little later */
+        for (int verdict = 0; verdict < 2; verdict++) {
+                pthread_t th; static volatile int vd; vd = verdict;
+                asm_set_self_tests_status(3);
+                pthread_create(&th, NULL, publish_later, (void *) &vd);
+                O64((uint32_t) T(asm_check_self_tests_status, 0, "check while running (waits)"));
+                pthread_join(th, NULL);
+                asm_set_self_tests_status(3);
+                pthread_create(&th, NULL, publish_later, (void *) &vd);
+                O64((uint32_t) T(isal_self_tests, 0, "isal_self_tests while running (waits)"));
+                pthread_join(th, NULL);
+        }
         T(asm_set_self_tests_status, 0, "set", 0);
 #endif
 }
@@ -459,7 +483,7 @@ static void run_one(uint64_t c, int fi, const char *fam, const char *vcpu, void 
                 if (mode == M_HIDDEN) { if (k == 0) H = tramp_hidden_A; else if (k == 1) H = tramp_hidden_B; else { rng_t hr; rng_seed(&hr, cs ^ 0x9e37); tramp_hidden_random(&H, &hr); } }
                 else { rng_t hr; rng_seed(&hr, cs ^ 0x51); tramp_hidden_random(&H, &hr); H.upper32 = 0; }
                 if (g_route != R_FAM) force_vcpu(vcpu);       /* first calls go through the resolvers, under the trampoline */
-                aoff = 0; obs = 0; nneed = 0;
+                aoff = 0; obs = 0; nneed = 0; rng_seed(&shift_rng, cs ^ 0x5417);
                 body(fi, &r);
                 o[k] = obs;
         }
